@@ -14,9 +14,13 @@ Driver for C08 (mock verdict).
   output parameter / unexpected object at once; missing parameter / missing object when the
   call is finished); `checkExpectations` must fail iff units are left (unfulfilled) or, with
   strict order, the sequence of calls differs from the declared sequence (out of order).
-  It uses none of the model's functions.  Scenarios outside the hypothesis of the property
-  (ambiguous expectation sets, ignore-other-parameters, repeated parameter names, strict order
-  switched on late) are not judged.
+  It uses none of the model's functions.  An expectation with `ignoreOtherParameters` is read as:
+  a call matches it iff name/object agree and every parameter (and output parameter) it names
+  occurs in the call with an equal value, extra parameters allowed; a call lacking a required
+  parameter must fail with "missing parameter" when it is finished.  Scenarios outside the
+  hypothesis of the property (ambiguous expectation sets — two expectations on one function that
+  neither have the same required-parameter map and flags nor differ on a shared parameter's
+  value —, repeated parameter names, strict order switched on late) are not judged.
 -/
 open Mock
 
@@ -169,15 +173,17 @@ structure Sig where
   obj  : Option Nat
   ins  : List (String × Val)
   outs : List String
+  iop  : Bool := false        -- ignoreOtherParameters: `ins`/`outs` are the REQUIRED parameters
 deriving Repr, Inhabited
 
 def sameSet {α} [BEq α] (a b : List α) : Bool := a.all (b.contains ·) && b.all (a.contains ·)
 
 def Sig.same (a b : Sig) : Bool :=
-  a.name == b.name && a.obj == b.obj && sameSet a.ins b.ins && sameSet a.outs b.outs
+  a.name == b.name && a.obj == b.obj && sameSet a.ins b.ins && sameSet a.outs b.outs && a.iop == b.iop
 
 /-- the hypothesis of the property for two expectations on the same function: identical
-    signatures, or a shared parameter with different values, or two different specific objects -/
+    signatures (the same required-parameter map and the same flags), or a shared (required)
+    parameter with different values, or two different specific objects -/
 def Sig.conflict (a b : Sig) : Bool :=
   a.ins.any (fun p => b.ins.any (fun q => p.1 == q.1 && p.2 != q.2)) ||
   (match a.obj, b.obj with | some x, some y => x != y | _, _ => false)
@@ -237,7 +243,8 @@ def sigOfExp (fn : String) (segs : List ESeg) : Sig :=
   { name := fn,
     obj := (segs.filterMap (fun s => match s with | .obj o => some o | _ => none)).getLast?,
     ins := segs.filterMap (fun s => match s with | .inp n v => some (n, v) | _ => none),
-    outs := segs.filterMap (fun s => match s with | .out n _ => some n | _ => none) }
+    outs := segs.filterMap (fun s => match s with | .out n _ => some n | _ => none),
+    iop := segs.any (fun s => match s with | .iop => true | _ => false) }
 
 /-! ### which scenarios are judged -/
 
@@ -275,8 +282,7 @@ def preCmd (p : Pre) : Cmd → Pre
     let sc := st.get s
     let sg := sigOfExp (scopedName s fn) segs
     let k := noteKinds p.kinds sg.ins
-    let wf := !segs.any (fun x => match x with | .iop => true | _ => false)
-      && distinct (sg.ins.map (·.1)) && distinct sg.outs
+    let wf := distinct (sg.ins.map (·.1)) && distinct sg.outs
       && (segs.filter (fun x => match x with | .obj _ => true | _ => false)).length ≤ 1
       && (segs.filter (fun x => match x with | .ret _ => true | _ => false)).length ≤ 1
     -- expectations declared while the scope is disabled do not exist
@@ -362,12 +368,13 @@ def unitsLeft (sc : OScope) : Bool := sc.units.any (fun u => !u.consumed)
 def narrow (sc : OScope) (f : String) : List CapUnit → List Seg → Except String (List CapUnit)
   | k, [] => .ok k
   | k, .inp n v :: rest =>
-    let k' := k.filter (fun u => u.sig.ins.contains (n, v))
+    -- an expectation that ignores other parameters accepts every parameter it does not name
+    let k' := k.filter (fun u => if u.sig.ins.any (·.1 == n) then u.sig.ins.contains (n, v) else u.sig.iop)
     if k'.isEmpty then
       .error (if sc.exps.any (fun e => e.name == f && e.ins.any (·.1 == n)) then dParamValue f n else dParamName f n)
     else narrow sc f k' rest
   | k, .out n :: rest =>
-    let k' := k.filter (fun u => u.sig.outs.contains n)
+    let k' := k.filter (fun u => u.sig.outs.contains n || u.sig.iop)
     if k'.isEmpty then
       .error (if sc.exps.any (fun e => e.name == f && e.outs.contains n) then dOutType f n else dOutName f n)
     else narrow sc f k' rest
@@ -381,10 +388,14 @@ def callSig (f : String) (segs : List Seg) : Sig :=
     ins := segs.filterMap (fun s => match s with | .inp n v => some (n, v) | _ => none),
     outs := segs.filterMap (fun s => match s with | .out n => some n | _ => none) }
 
-/-- a unit is exactly the call: same parameters, same output parameters, and its object (if it
-    names one) is the call's -/
+/-- the call matches the unit: same parameters and output parameters — or, for a unit that
+    ignores other parameters, every required parameter (with its value) and every required output
+    parameter occurs in the call, extra ones allowed — and its object (if it names one) is the
+    call's -/
 def exactly (c : Sig) (u : CapUnit) : Bool :=
-  sameSet u.sig.ins c.ins && sameSet u.sig.outs c.outs && (u.sig.obj.isNone || u.sig.obj == c.obj)
+  (if u.sig.iop then u.sig.ins.all (c.ins.contains ·) && u.sig.outs.all (c.outs.contains ·)
+   else sameSet u.sig.ins c.ins && sameSet u.sig.outs c.outs) &&
+  (u.sig.obj.isNone || u.sig.obj == c.obj)
 
 def consumeAt (units : List CapUnit) (pos : Nat) : List CapUnit :=
   units.map (fun u => if u.pos == pos then { u with consumed := true } else u)
